@@ -28,6 +28,18 @@ THEMES = {
         "dependencies x propertyNames, nested arrays of objects with defaults); or the difference between the ways "
         "of reaching the same thing (DSL class vs parsed schema vs generated module re-imported; keyword passed "
         "to the constructor vs assigned afterwards; `Property(...)` wrapper vs bare element)."),
+    7: ("Make it look like a change a maintainer would plausibly merge. All inputs must be LEGAL (schemas valid under "
+        "JSON Schema Draft 6, DSL calls with documented arguments and sensible usage). Aim at an OBSERVABLE named in "
+        "the statement that checks rarely look at closely: the exact exception TYPE that escapes, warnings, the "
+        "generated Python TEXT (imports, annotations, order of classes, keyword arguments), `isinstance` / identity of "
+        "returned objects, `==` and `hash`, attribute access versus item access on results, the JSON TYPE of "
+        "serialised numbers and booleans (1 vs 1.0 vs true), what the element tree looks like AFTER the call; or at "
+        "an API SEQUENCE rather than a single call: build -> serialise -> reconfigure -> serialise again; parse the "
+        "output of serialize_json again and again; validate -> use or modify the returned object -> validate again; "
+        "hand an instance of one model to another model; define a subclass of a parsed or generated class; use one "
+        "element object in two different trees; register, use, re-register. Prefer a fault that only ONE of several "
+        "equivalent routes shows (e.g. only the second of two equal sub-schemas, only the last property, only when "
+        "the value is rejected first and accepted later)."),
 }
 
 for pid, p in props.items():
